@@ -68,13 +68,9 @@ theorem c8 : ((8#32).signExtend 64 : BitVec 64).toInt = 8 := by decide
 theorem gen_natural_alignment (s : BitVec 64) :
     (Gen.C04.natural_alignment s).toInt = naturalAlignment s.toInt := by
   simp only [Gen.C04.natural_alignment, naturalAlignment, BitVec.sle_eq_decide, c2, c4, c8, decide_eq_true_eq]
-  by_cases h2 : s.toInt ≤ 2
-  · simp [h2]
-  · by_cases h4 : s.toInt ≤ 4
-    · simp [h2, h4]
-    · by_cases h8 : s.toInt ≤ 8
-      · simp [h2, h4, h8]
-      · simp [h2, h4, h8]
+  -- robust against re-nesting of the conditional expression: decide all three comparisons first
+  by_cases h2 : s.toInt ≤ 2 <;> by_cases h4 : s.toInt ≤ 4 <;> by_cases h8 : s.toInt ≤ 8 <;>
+    simp [h2, h4, h8] <;> omega
 
 theorem bmod_id (v : Int) (h1 : -(2^63) ≤ v) (h2 : v < 2^63) : v.bmod (2^64) = v :=
   Int.bmod_eq_of_le h1 h2
